@@ -46,8 +46,7 @@ func match(filter CompFilter, comp *ical.Component) (bool, error) {
 		return false, nil
 	}
 
-	var zeroDate time.Time
-	if filter.Start != zeroDate {
+	if !filter.Start.IsZero() || !filter.End.IsZero() {
 		match, err := matchCompTimeRange(filter.Start, filter.End, comp)
 		if err != nil {
 			return false, err
@@ -158,19 +157,22 @@ func matchCompTimeRange(start, end time.Time, comp *ical.Component) (bool, error
 		return false, err
 	}
 
-	// Event starts in time range
-	if eventStart.After(start) && (end.IsZero() || eventStart.Before(end)) {
-		return true, nil
+	// The event's half-open interval [eventStart, eventEnd) must overlap
+	// the half-open range [start, end); an unset bound is infinite. A
+	// zero-length event matches if it lies at or after start.
+	if !start.IsZero() {
+		if eventEnd.After(eventStart) {
+			if !start.Before(eventEnd) {
+				return false, nil
+			}
+		} else if start.After(eventStart) {
+			return false, nil
+		}
 	}
-	// Event ends in time range
-	if eventEnd.After(start) && (end.IsZero() || eventEnd.Before(end)) {
-		return true, nil
+	if !end.IsZero() && !end.After(eventStart) {
+		return false, nil
 	}
-	// Event covers entire time range plus some
-	if eventStart.Before(start) && (!end.IsZero() && eventEnd.After(end)) {
-		return true, nil
-	}
-	return false, nil
+	return true, nil
 }
 
 func matchPropTimeRange(start, end time.Time, field *ical.Prop) (bool, error) {
